@@ -57,6 +57,10 @@ func restyle(s string, style int) string {
 		return open + "-" + inner + " " + close
 	case 6:
 		return open + "\n" + inner + "\n" + close
+	case 8: // a tag spread over lines: every space inside it is a newline
+		return open + " " + strings.ReplaceAll(inner, " ", "\n") + " " + close
+	case 9:
+		return open + "\t" + strings.ReplaceAll(inner, " ", " \n\t") + "\n" + close
 	default:
 		return open + "  " + inner + "\t" + close
 	}
